@@ -26,6 +26,11 @@ pub struct FuncProto {
     pub nparam: usize,
     pub nret: usize,
     pub upindexes: Vec<OpenUpValue>,
+    /// For the entries of `upindexes` that capture a variable of a function further out than the
+    /// enclosing one: the index of the enclosing closure's upvalue that refers to it, which the
+    /// new closure shares (`pos` is unused then). A missing entry or `None` captures a register
+    /// of the enclosing function.
+    pub outer_upindexes: Vec<Option<usize>>,
     pub bytecodes: Vec<Instruction>,
     pub constants: Vec<RawVal>,
     pub delay_sizes: Vec<u64>,
@@ -41,6 +46,7 @@ impl Default for FuncProto {
             nparam: 0,
             nret: 0,
             upindexes: Vec::new(),
+            outer_upindexes: Vec::new(),
             bytecodes: Vec::new(),
             constants: Vec::new(),
             delay_sizes: Vec::new(),
